@@ -27,14 +27,11 @@ package verify
 //@ func isCPUSvnHigherOrEqual(pckCertCPUSvnComponents, sgxTcbcomponents) (r)
 //@   reveal cpuGE
 //@   ensures[iff] r <==> cpuGE(pckCertCPUSvnComponents, sgxTcbcomponents)
-//@   loop 0: invariant forall j :: 0 <= j && j <= rangeindex ==> pckCertCPUSvnComponents[j] >= sgxTcbcomponents[j].Svn
 
 //@ func isTdxTcbSvnHigherOrEqual(teeTcbSvn, tdxTcbcomponents) (r)
 //@   requires len(teeTcbSvn) == 16
 //@   reveal tdxGE
 //@   ensures[iff] r <==> tdxGE(teeTcbSvn, tdxTcbcomponents)
-//@   loop 0: invariant start <= i && (start == 0 || start == 2) && (start == 2 <==> teeTcbSvn[1] > 0)
-//@   loop 0: invariant forall j :: start <= j && j < i ==> teeTcbSvn[j] >= tdxTcbcomponents[j].Svn
 
 //@ func getMatchingTcbLevel(tcbLevels, tdReport, pckCertPceSvn, pckCertCPUSvnComponents) (r, err)
 //@   requires tdReport != nil && len(tdReport.TeeTcbSvn) == 16
@@ -44,7 +41,6 @@ package verify
 //@ |       && (forall j :: 0 <= j && j < k ==> !lvlMatch(tcbLevels[j], tdReport.TeeTcbSvn, pckCertPceSvn, pckCertCPUSvnComponents))
 //@ |       && r == tcbLevels[k])
 //@   ensures[no-match] err != nil ==> (forall j :: 0 <= j && j < len(tcbLevels) ==> !lvlMatch(tcbLevels[j], tdReport.TeeTcbSvn, pckCertPceSvn, pckCertCPUSvnComponents))
-//@   loop 0: invariant forall j :: 0 <= j && j <= rangeindex ==> !lvlMatch(tcbLevels[j], tdReport.TeeTcbSvn, pckCertPceSvn, pckCertCPUSvnComponents)
 
 // ---- QE TCB level: first level whose isvsvn is not above the report's ----
 
@@ -52,7 +48,6 @@ package verify
 //@   ensures[first-match] err == nil ==> (exists k :: 0 <= k && k < len(tcbLevels) && tcbLevels[k].Tcb.Isvsvn <= isvsvn
 //@ |       && (forall j :: 0 <= j && j < k ==> tcbLevels[j].Tcb.Isvsvn > isvsvn) && r == tcbLevels[k])
 //@   ensures[no-match] err != nil ==> (forall j :: 0 <= j && j < len(tcbLevels) ==> tcbLevels[j].Tcb.Isvsvn > isvsvn)
-//@   loop 0: invariant forall j :: 0 <= j && j <= rangeindex ==> tcbLevels[j].Tcb.Isvsvn > isvsvn
 
 //@ define qeUpToDate(levels, isvsvn) = exists k :: 0 <= k && k < len(levels) && levels[k].Tcb.Isvsvn <= isvsvn
 //@ |       && (forall j :: 0 <= j && j < k ==> levels[j].Tcb.Isvsvn > isvsvn) && levels[k].TcbStatus == "UpToDate"
@@ -72,8 +67,6 @@ package verify
 //@ |       && (exists k :: lvlFirst(tcbInfoTdxModuleIdentities[m].TcbLevels, uint32(teeTcbSvn[0]), k)))
 //@   ensures[level] err == nil ==> r != nil && (exists m :: modFirst(tcbInfoTdxModuleIdentities, teeTcbSvn, m)
 //@ |       && (exists k :: lvlFirst(tcbInfoTdxModuleIdentities[m].TcbLevels, uint32(teeTcbSvn[0]), k) && *r == tcbInfoTdxModuleIdentities[m].TcbLevels[k]))
-//@   loop 0: invariant forall j :: 0 <= j && j <= rangeindex ==> tcbInfoTdxModuleIdentities[j].ID != modID(teeTcbSvn)
-//@   loop 1: invariant forall j :: 0 <= j && j <= rangeindex ==> tdxModuleIdentity.TcbLevels[j].Tcb.Isvsvn > uint32(teeTcbSvn[0])
 
 // ---- the TCB-info verdict ----
 
@@ -277,8 +270,6 @@ package verify
 //@   ensures[conflict] options.CheckRevocations && !options.GetCollateral ==> err != nil
 //@   ensures[complete] options.chain.RootCertificate != nil && options.chain.IntermediateCertificate != nil && options.chain.PCKCertificate != nil
 //@ |     && pckChainOK(options) ==> err == nil
-//@   loop 0: invariant forall j :: 0 <= j && j <= rangeindex ==> *collateral.RootCaCrl.RevokedCertificates[j].SerialNumber != *intermediateCert.SerialNumber
-//@   loop 1: invariant forall j :: 0 <= j && j <= rangeindex ==> *collateral.PckCrl.RevokedCertificates[j].SerialNumber != *pckCert.SerialNumber
 
 // the three PEM blocks of the chain carried in the quote
 //@ opaque define chainBlocks(ch, cb) = pemOK(cb) && pemType(cb) == "CERTIFICATE" && certParses(pemBytes(cb)) && addr(ch.PCKCertificate) == parseCert(pemBytes(cb))
@@ -327,7 +318,6 @@ package verify
 //@   ensures[accept] err == nil ==> responseOK(signingPhrase, rootCertificate, signingCertificate, rawBody, rawSignature, crl, options, now)
 //@   ensures[conflict] options.CheckRevocations && !options.GetCollateral ==> err != nil
 //@   ensures[complete] responseOK(signingPhrase, rootCertificate, signingCertificate, rawBody, rawSignature, crl, options, now) ==> err == nil
-//@   loop 0: invariant forall j :: 0 <= j && j <= rangeindex ==> *crl.RevokedCertificates[j].SerialNumber != *signingCertificate.SerialNumber
 
 //@ opaque define tcbInfoOK(o) = o.collateral.TdxTcbInfo.TcbInfo.ID == "TDX" && o.collateral.TdxTcbInfo.TcbInfo.Version == 3 && len(o.collateral.TdxTcbInfo.TcbInfo.TcbLevels) > 0
 //@ |     && responseOK("Intel SGX TCB Signing", o.collateral.TcbInfoIssuerRootCertificate, o.collateral.TcbInfoIssuerIntermediateCertificate,
@@ -497,16 +487,36 @@ package verify
 //@   assigns options.chain, options.collateral, options.pckCertExtensions, options.Now
 //@   ensures[gate] err == nil ==> quoteWF(seq(raw)) && options != nil
 
+// A root-of-trust configuration trusts exactly the certificates it lists: the
+// pool is the fold of AppendCertsFromPEM over the bundle files (in order) and
+// then the inline bundles (in order), starting from the empty pool.
+// poolPrefix(rot, k) is the pool after the first k bundles.
+//@ uf poolPrefix(BV64, BV64) CertPool
+//@ define nPaths(rot) = len(rot.CabundlePaths)
+//@ define nBundles(rot) = len(rot.CabundlePaths) + len(rot.Cabundles)
+
 //@ func getTrustedRoots(rot) (r, err)
 //@   requires rot != nil
+//@   assumes[pool-fold-definition] poolPrefix(addr(rot), 0) == poolEmpty()
+//@ |     && (forall k :: 0 <= k && k < nPaths(rot) ==> poolPrefix(addr(rot), k + 1) == poolAddPEM(poolPrefix(addr(rot), k), fileBytes(rot.CabundlePaths[k])))
+//@ |     && (forall k :: 0 <= k && k < len(rot.Cabundles) ==> poolPrefix(addr(rot), nPaths(rot) + k + 1) == poolAddPEM(poolPrefix(addr(rot), nPaths(rot) + k), strbytes(rot.Cabundles[k])))
 //@   ensures[none] len(rot.CabundlePaths) == 0 && len(rot.Cabundles) == 0 ==> r == nil && err == nil
 //@   ensures[fresh-pool] r != nil ==> fresh(r)
+//@   ensures[configured] err == nil && nBundles(rot) > 0 ==> r != nil
+//@   ensures[exact] err == nil && r != nil ==> *r == poolPrefix(addr(rot), nBundles(rot))
+//@   ensures[every-bundle-has-certs] err == nil ==> (forall k :: 0 <= k && k < nPaths(rot) ==> pemHasCerts(fileBytes(rot.CabundlePaths[k])))
+//@ |     && (forall k :: 0 <= k && k < len(rot.Cabundles) ==> pemHasCerts(strbytes(rot.Cabundles[k])))
+//@   loop 0: invariant result != nil && fresh(result) && *result == poolPrefix(addr(rot), rangeindex + 1)
+//@   loop 0: invariant forall k :: 0 <= k && k <= rangeindex ==> pemHasCerts(fileBytes(rot.CabundlePaths[k]))
+//@   loop 1: invariant result != nil && fresh(result) && *result == poolPrefix(addr(rot), nPaths(rot) + rangeindex + 1)
+//@   loop 1: invariant forall k :: 0 <= k && k <= rangeindex ==> pemHasCerts(strbytes(rot.Cabundles[k]))
 
 //@ func RootOfTrustToOptions(rot) (r, err)
 //@   records rootoftrust
 //@   requires rot != nil
 //@   ensures[flags] err == nil ==> r != nil && r.CheckRevocations == rot.CheckCrl && r.GetCollateral == rot.GetCollateral && r.Now == nil && r.Getter == nil
 //@   ensures[embedded-root-when-unconfigured] err == nil && len(rot.CabundlePaths) == 0 && len(rot.Cabundles) == 0 ==> r.TrustedRoots == nil
+//@   ensures[configured-pool] err == nil && nBundles(rot) > 0 ==> r.TrustedRoots != nil && *r.TrustedRoots == poolPrefix(addr(rot), nBundles(rot))
 
 //@ func SupportedTcbLevelsFromCollateral(quote, options) (tcb, qe, err)
 //@   requires options != nil ==> options.Now != nil
